@@ -61,6 +61,10 @@ func runOnce(f string, quiet bool) bool {
 	func() {
 		defer func() {
 			if escaped = recover(); escaped != nil {
+				if _, stop := escaped.(vf.StopReplay); stop {
+					escaped = nil
+					return
+				}
 				fmt.Printf("%s\n", debug.Stack())
 			}
 		}()
